@@ -124,9 +124,13 @@ def check(case) -> CaseResult:
         if N < 1:
             res.rejected = "horizon too short"
             return res
-        gs = graph.init(jax.random.PRNGKey(7))
-        out = jax.jit(functools.partial(graph.rollout, max_steps=N, carry_only=True))(gs)
-        jax.block_until_ready(out.step)
+        try:
+            gs = graph.init(jax.random.PRNGKey(7))
+            out = jax.jit(functools.partial(graph.rollout, max_steps=N, carry_only=True))(gs)
+            jax.block_until_ready(out.step)
+        except (ValueError, TypeError, IndexError, AssertionError) as ex:  # a graph generate_graphs produced must run
+            res.fail("C10.compiled_run_raises", dict(trainable=trainable, err=f"{type(ex).__name__}: {str(ex)[:200]}", how=case["how"]))
+            return res
         traces.append(tr.by_key())
         graphs_np.append(jax.tree_util.tree_map(onp.asarray, G))
         Ns.append(N)
